@@ -38,7 +38,7 @@ man = {
     "setup_cmd": "./setup.sh",
     "hooks": {
         "guard": "VERIBLOCK_ALT_INTEGRATION_CPP_VERIF",
-        "enable": "checks configure their own library builds under /verif/build/lib-{rel,asan,tsan} with -DVERIBLOCK_ALT_INTEGRATION_CPP_VERIF in CMAKE_CXX_FLAGS and rebuild them with ninja from /repo's working tree on every run",
+        "enable": "checks configure their own library builds under /verif/build/lib-{rel,asan,tsan,ndebug} with -DVERIBLOCK_ALT_INTEGRATION_CPP_VERIF in CMAKE_CXX_FLAGS and rebuild them with ninja from /repo's working tree on every run",
         "baseline_off_cmd": "cmake --build /repo/_build -j 16 && ctest --test-dir /repo/_build -j8 --timeout 900",
         "source_commits": json.load(open(os.path.join(V, "tools", "hook_commits.json"))) if os.path.exists(os.path.join(V, "tools", "hook_commits.json")) else [],
         "add_only": True,
